@@ -179,6 +179,16 @@ def decide(case, wctx):
     if problems:
         r["verdict"] = "violated"
         r["witness"] = {"problems": problems[:4], "steps": steps}
+        # mechanism: a workflow that contains one identity twice, submitted with a propagated rerun under the process pool:
+        # the second execution of the identity wipes the job directory while the finished first one is being read
+        # (results are read without the job lock) -> "Could not find results of ... node" (before the lazy.py repair
+        # that message itself crashed with AttributeError 'readonly_caches')
+        if len(problems) == 1 and problems[0]["why"] == "submission failed":
+            op = case["ops"][problems[0]["step"]]
+            e = problems[0]["error"]
+            if (op.get("task") in DUP and op.get("rerun") and op.get("propagate") and op.get("worker") == "cf"
+                    and ("Could not find results of" in e or "readonly_caches" in e)):
+                r["mech"] = "rerun-duplicate-identity-race"
         if all(p.get("shadowed") for p in problems if p["why"].startswith("executed although")) and \
                 all(p["why"].startswith("executed although") for p in problems):
             r["mech"] = "incomplete-dir-shadows-readonly"
